@@ -585,6 +585,9 @@ fn gen_overflowing(ctx: &mut Ctx, i: usize) -> (f64, f64, usize) {
 // ------------------------------------------------------------------ runner + oracle
 
 pub fn run_op(ctx: &mut Ctx, op: &str) {
+    if ctx.hang_limit_reached() {
+        return;
+    }
     let toks: Vec<&str> = op.split_whitespace().collect();
     let done = match toks.first().copied() {
         Some("grid2") => run_grid(ctx, op, &toks, 2),
